@@ -359,12 +359,40 @@ class _IntTests:
                     val = x.left
                     break
         if val is None:
+            tol = self._tolerance_test(n)
+            if tol is not None:
+                return "tolerant", tol
             return None
         tr = self.trace(val)
         if not tr:
             return None
         atom = "rint" if _through_round(tr) else "exact"
         return ("!" + atom if neg else atom), val
+
+    def _tolerance_test(self, n: ast.AST):
+        """`isclose(x, round(x) | int(x), ..)` / `abs(x - round(x)) < eps`: 'x is nearly an integer' -- not an integer test"""
+        def integer_of(a, b):
+            tb = self.trace(b)
+            if not tb or not all(any(st in ("arg0:round", "arg0:int", "arg0:floor", "arg0:trunc", "arg0:ceil") for st in x) for x in _main(tb) or [()]):
+                return False
+            ta = self.trace(a)
+            return bool(ta) and bool(_bases(ta) & _bases(tb))
+        if isinstance(n, ast.Call) and callee_name(n) == "isclose" and len(n.args) >= 2:
+            a, b = n.args[0], n.args[1]
+            if integer_of(a, b):
+                return a
+            if integer_of(b, a):
+                return b
+        if isinstance(n, ast.Compare) and len(n.ops) == 1 and isinstance(n.ops[0], (ast.Lt, ast.LtE, ast.Gt, ast.GtE)):
+            for side in (n.left, n.comparators[0]):
+                if isinstance(side, ast.Call) and callee_name(side) == "abs" and len(side.args) == 1 and isinstance(side.args[0], ast.BinOp) \
+                        and isinstance(side.args[0].op, ast.Sub):
+                    a, b = side.args[0].left, side.args[0].right
+                    if integer_of(a, b):
+                        return a
+                    if integer_of(b, a):
+                        return b
+        return None
 
     def matcher(self, e: ast.AST) -> Optional[str]:
         t = self.tests.get(id(e))
@@ -429,6 +457,10 @@ def _round_in(repo: Repo, r: RuleResult, rid: str, f: FuncInfo, must_have: bool)
 
     for _a, n, _v in T.tests.values():
         r.site(L.site(f, n, "integer test"))
+    for a_, n, _v in T.tests.values():
+        if a_ == "tolerant":
+            r.fail(Finding(rid, f, "integer-test:tolerant", f"{unparse(n, 60)} decides whether the value is printed as an integer: a value within the tolerance "
+                           f"of an integer loses a fraction that is representable at the print precision (5.0001 at 4 digits is printed as 5)", node=n))
     if not T.tests and not convs:
         if must_have and any(callee_name(c) in TRUNCATING for c in L.calls_in(f.node)):
             raise AnalysisError(f"{f.qn}: integer conversion found but its operand is not interpreted")
@@ -463,6 +495,8 @@ def _round_in(repo: Repo, r: RuleResult, rid: str, f: FuncInfo, must_have: bool)
                 r.fail(Finding(rid, f, "integer-conversion-of-non-integer", f"{unparse(c, 50)} is used only when the rounded value is not an integer: "
                                f"the fraction is cut off", node=c))
             continue
+        if "tolerant" in atoms:
+            continue            # reported above
         if must_have:
             raise AnalysisError(f"{f.qn}: {unparse(c, 50)} is not controlled by a recognised integer test")
         r.ok({"integer_conversion": unparse(c, 60), "guard": None})
@@ -1012,7 +1046,12 @@ class _Elim:
         if isinstance(e, ast.IfExp):
             t = C.eval3(e.test, val)
             if t is None:
-                raise AnalysisError(f"extract_eliminated_expressions: branch condition {unparse(e.test, 50)} of the replacement not recognised")
+                # not a test the analysis can relate to the operator / to `r == 0`: it may go either way in every case, so the
+                # replacement has to be right on both branches (the caller enumerates the choices)
+                choice = getattr(self, "choice", {})
+                if id(e.test) not in choice:
+                    raise _NeedChoice(id(e.test), e.test)
+                t = choice[id(e.test)]
             return ev(e.body if t else e.orelse)
         if isinstance(e, ast.Call):
             cn = callee_name(e)
@@ -1117,9 +1156,12 @@ def rule_eliminate(repo: Repo) -> RuleResult:
                 continue
             bad = None
             sample = None
+            cases = []
             for st, elim_e, rep_e in res:
-                target = E.eval(elim_e, val, seen, False)
-                R = E.eval(rep_e, val, seen, zero)
+                for target in _all_choices(E, elim_e, val, seen, False):
+                    for R in _all_choices(E, rep_e, val, seen, zero):
+                        cases.append((st, target, R))
+            for st, target, R in cases:
                 rhs = A.num(0) if zero else A.sym("r")
                 if target.same(A.sym("e1")):
                     lhs = apply_op[op](R, A.sym("e2"))
@@ -1144,6 +1186,29 @@ def rule_eliminate(repo: Repo) -> RuleResult:
                                f"every inequality rewritten with it changes its meaning", node=st))
     r.require_sites(3)
     return r
+
+
+class _NeedChoice(Exception):
+    def __init__(self, key, test):
+        self.key, self.test = key, test
+
+
+def _all_choices(E, expr, val, seen, zero_r):
+    """the values an expression can construct when every branch condition the analysis cannot decide is taken either way"""
+    pending, out = [{}], []
+    while pending:
+        ch = pending.pop()
+        E.choice = ch
+        try:
+            out.append(E.eval(expr, val, seen, zero_r))
+        except _NeedChoice as nc:
+            if len(ch) >= 4:
+                raise AnalysisError(f"extract_eliminated_expressions: too many branch conditions that are not recognised ({unparse(nc.test, 50)})")
+            pending.append({**ch, nc.key: True})
+            pending.append({**ch, nc.key: False})
+        finally:
+            E.choice = {}
+    return out
 
 
 def rule_digits(repo: Repo, rid: str = "C13.digits", modules=(NS,), pname: str = "decimal_digits") -> RuleResult:
